@@ -607,6 +607,14 @@ fn spawn_async_ao_list_in_task'''),
         ('hook-runs-before-dispatch-too', 'brush-core/src/commands.rs', "        // We still haven't found a command to invoke. We'll need to look for an external command.\n", "        if let Some(post_execute) = self.post_execute {\n            let _ = post_execute(&mut self.shell);\n        }\n"),
         ('unwrap-of-unchecked-builtin', 'brush-core/src/commands.rs', "        if self.shell.options().posix_mode\n            && builtin\n                .as_ref()\n                .is_some_and(|r| !r.disabled && r.special_builtin)\n        {", "        if self.shell.options().posix_mode {"),
     ],
+    'U4s': [
+        ('guard-detached-before-the-assignments', 'brush-core/src/interp.rs', "    let mut guard = crate::env::ScopeGuard::new(&mut context.shell, EnvironmentScope::Command);\n", "    let mut guard = crate::env::ScopeGuard::new(&mut context.shell, EnvironmentScope::Command);\n    guard.detach();\n"),
+        ('guard-never-detached-scope-popped-twice', 'brush-core/src/interp.rs', "    guard.detach();\n    drop(guard);", "    drop(guard);"),
+        ('hook-not-installed', 'brush-core/src/interp.rs', "    cmd.post_execute = Some(|shell| shell.env_mut().pop_scope(EnvironmentScope::Command));\n", ""),
+        ('drop-ignores-the-detached-flag', 'brush-core/src/env.rs', "        if !self.detached {\n            let _ = self.shell.env_mut().pop_scope(self.scope_type);\n        }", "        let _ = self.shell.env_mut().pop_scope(self.scope_type);"),
+        ('detach-is-a-no-op', 'brush-core/src/env.rs', "        self.detached = true;", "        self.detached = false;"),
+        ('guard-pushes-two-scopes', 'brush-core/src/env.rs', "        shell.env_mut().push_scope(scope_type);\n", "        shell.env_mut().push_scope(scope_type);\n        shell.env_mut().push_scope(scope_type);\n"),
+    ],
     'U4q': [
         ('owned-shell-builtin-keeps-its-control-flow', 'brush-core/src/commands.rs', "            result.map(|result| ExecutionResult::from(result.exit_code))\n", "            result\n"),
     ],
